@@ -82,11 +82,16 @@ def run(ctx: Context) -> None:
             alts = ctx.prov.expand(c.args[1], s2, c, depth=1) if len(c.args) > 1 else []
             ok = False
             detail = "header block not located"
-            if len(alts) == 1 and isinstance(alts[0], ast.BinOp) and isinstance(alts[0].left, ast.Name):
-                # the pseudo-header list bound to a name of its own
-                la = ctx.prov.expand(alts[0].left, s2, c, depth=1)
-                if len(la) == 1 and isinstance(la[0], ast.List):
-                    alts = [ast.BinOp(left=la[0], op=alts[0].op, right=alts[0].right)]
+            if len(alts) == 1 and isinstance(alts[0], ast.BinOp) and (isinstance(alts[0].left, ast.Name) or isinstance(alts[0].right, ast.Name)):
+                # the pseudo-header list / the regular-header comprehension bound to a name of its own
+                sides = []
+                for side, kind in ((alts[0].left, ast.List), (alts[0].right, ast.ListComp)):
+                    if isinstance(side, ast.Name):
+                        la = ctx.prov.expand(side, s2, c, depth=1)
+                        if len(la) == 1 and isinstance(la[0], kind):
+                            side = la[0]
+                    sides.append(side)
+                alts = [ast.BinOp(left=sides[0], op=alts[0].op, right=sides[1])]
             if len(alts) == 1 and isinstance(alts[0], ast.BinOp) and isinstance(alts[0].left, ast.List) and isinstance(alts[0].right, ast.ListComp):
                 pseudo = [norm(e) for e in alts[0].left.elts]
                 lc = alts[0].right
